@@ -121,9 +121,7 @@ macro_rules! read_view {
       }
       o.insert("get".into(), Value::Array(get));
       let mut all: Vec<(i64, i64)> = vec![];
-      let mut groups = 0usize;
       for (k, vals) in RelIndexReadAll::iter_all(ind) {
-         groups += 1;
          let ak = perm.key_back(HKey::to_i(Borrow::<$K>::borrow(&k)));
          for x in vals {
             all.push((ak, perm.val_back(*Borrow::<usize>::borrow(&x))));
@@ -131,7 +129,6 @@ macro_rules! read_view {
       }
       all.sort();
       o.insert("all".into(), json!(all));
-      o.insert("groups".into(), json!(groups));
       o.insert("empty".into(), json!(RelIndexRead::is_empty(ind)));
       o.insert("len".into(), json!(RelIndexRead::len_estimate(ind)));
       sel!($full, {
@@ -189,6 +186,7 @@ fn hist_of(case: &Value) -> Vec<(String, String, i64, i64)> {
 ///   full:   the type implements the full-index traits
 macro_rules! replay_fn {
    ($name:ident, $T:ty, $K:ty, conc = $conc:tt, shared = $shared:tt, full = $full:tt) => {
+      #[allow(unused_mut, unused_variables, unused_assignments)]
       fn $name(hist: &[(String, String, i64, i64)], akeys: &[i64], perm: &Perm, step: &Cell<usize>) -> Value {
          let mut new: $T = Default::default();
          let mut delta: $T = Default::default();
@@ -341,7 +339,7 @@ fn run_rel_no_index_type(hist: &[(String, String, i64, i64)], _akeys: &[i64], pe
       let mut v: Vec<i64> = x.iter().map(|&c| perm.val_back(c)).collect();
       v.sort();
       let all: Vec<(i64, i64)> = v.iter().map(|&a| (1, a)).collect();
-      json!({"get": [v], "all": all, "groups": 1, "empty": x.is_empty(), "len": x.len()})
+      json!({"get": [v], "all": all, "empty": x.is_empty(), "len": x.len()})
    };
    json!({"rets": [], "views": {"total": view(&total), "delta": view(&delta), "new": view(&new), "comb": null}})
 }
@@ -375,12 +373,76 @@ fn types_of(kind: &str) -> Vec<(&'static str, ReplayFn)> {
    }
 }
 
+/// Splits an observation into its CORE (what the abstract content determines: results of
+/// insert_if_not_present, index_get, iter_all, contains_key -- compared with the vector) and its
+/// EXTRAS (is_empty / len_estimate answers, agreement of the parallel readers with the sequential
+/// ones, stability under one more unfreeze / freeze).
+fn split(obs: Value) -> (Value, Value) {
+   if obs.get("panic").is_some() {
+      return (obs, json!({}));
+   }
+   let mut core_views = Map::new();
+   let mut empty = vec![];
+   let mut len = vec![];
+   let mut par = Map::new();
+   let mut psame = true;
+   let mut has_par = false;
+   for name in VIEWS {
+      let v = &obs["views"][name];
+      if v.is_null() {
+         core_views.insert(name.into(), Value::Null);
+         empty.push(Value::Null);
+         len.push(Value::Null);
+         continue;
+      }
+      let mut c = Map::new();
+      c.insert("get".into(), v["get"].clone());
+      c.insert("all".into(), v["all"].clone());
+      if let Some(h) = v.get("has") {
+         c.insert("has".into(), h.clone());
+      }
+      core_views.insert(name.into(), Value::Object(c));
+      empty.push(v["empty"].clone());
+      len.push(v["len"].clone());
+      if let Some(pg) = v.get("pget") {
+         has_par = true;
+         if *pg != v["get"] || v["pall"] != v["all"] {
+            psame = false;
+         }
+         par.insert(name.into(), json!({"get": pg, "all": v["pall"]}));
+      }
+   }
+   let core = json!({"rets": obs["rets"], "views": core_views});
+   let mut x = Map::new();
+   x.insert("empty".into(), Value::Array(empty));
+   x.insert("len".into(), Value::Array(len));
+   if has_par {
+      x.insert("psame".into(), json!(psame));
+      if !psame {
+         x.insert("par".into(), Value::Object(par));
+      }
+   }
+   if let Some(st) = obs.get("stable") {
+      x.insert("stable".into(), st.clone());
+      if let Some(sec) = obs.get("second") {
+         x.insert("second".into(), sec.clone());
+      }
+   }
+   (core, Value::Object(x))
+}
+
+/// the order of the per-view arrays of the extras
+const VIEWS: [&str; 4] = ["total", "delta", "new", "comb"];
+
+/// Output for one vector: {"cores": [distinct cores], "types": {type: [{"c": index of the core,
+/// "n": number of renamings with this observation, "perm": the first of them, "x": extras}]}}
 fn replay_vector(case: &Value, all_perms: bool, nkeys: usize, nvals: usize, only: Option<&str>) -> Value {
    let kind = case["kind"].as_str().expect("kind");
    let hist = hist_of(case);
    let nk = if kind == "noindex" { 1 } else { nkeys };
    let akeys: Vec<i64> = (1..=nk as i64).collect();
    let ps = perms(nk, nvals, all_perms);
+   let mut cores: Vec<Value> = vec![];
    let mut res = Map::new();
    for (name, f) in types_of(kind) {
       if let Some(o) = only {
@@ -388,25 +450,32 @@ fn replay_vector(case: &Value, all_perms: bool, nkeys: usize, nvals: usize, only
             continue;
          }
       }
-      // distinct observations, with the number of renamings that produced each and the first of them
-      let mut groups: Vec<(Value, usize, Value)> = vec![];
+      let mut groups: Vec<(usize, Value, usize, Value)> = vec![];
       for p in &ps {
          let step = Cell::new(0usize);
          let obs = match guarded(|| f(&hist, &akeys, p, &step)) {
             Ok(v) => v,
             Err(m) => json!({"panic": m, "step": step.get()}),
          };
-         match groups.iter_mut().find(|g| g.0 == obs) {
-            Some(g) => g.1 += 1,
-            None => groups.push((obs, 1, p.json())),
+         let (core, x) = split(obs);
+         let ci = match cores.iter().position(|c| *c == core) {
+            Some(i) => i,
+            None => {
+               cores.push(core);
+               cores.len() - 1
+            },
+         };
+         match groups.iter_mut().find(|g| g.0 == ci && g.1 == x) {
+            Some(g) => g.2 += 1,
+            None => groups.push((ci, x, 1, p.json())),
          }
       }
       res.insert(
          name.to_string(),
-         Value::Array(groups.into_iter().map(|(obs, n, p)| json!({"n": n, "perm": p, "obs": obs})).collect()),
+         Value::Array(groups.into_iter().map(|(c, x, n, p)| json!({"c": c, "n": n, "perm": p, "x": x})).collect()),
       );
    }
-   Value::Object(res)
+   json!({"cores": cores, "types": res})
 }
 
 fn main_seq(out: &mut Out) {
